@@ -81,6 +81,7 @@ type vFD struct {
 	card     protoreflect.Cardinality
 	packed   bool
 	presence bool
+	lazy     bool
 	msg      *vMD
 }
 
@@ -93,7 +94,7 @@ func (f *vFD) IsList() bool                                       { return f.car
 func (f *vFD) IsMap() bool                                        { return false }
 func (f *vFD) IsExtension() bool                                  { return false }
 func (f *vFD) IsWeak() bool                                       { return false }
-func (f *vFD) IsLazy() bool                                       { return false }
+func (f *vFD) IsLazy() bool                                       { return f.lazy }
 func (f *vFD) ContainingOneof() protoreflect.OneofDescriptor      { return nil }
 func (f *vFD) ContainingMessage() protoreflect.MessageDescriptor { return f.parent }
 func (f *vFD) Syntax() protoreflect.Syntax                        { return f.parent.syntax }
